@@ -25,6 +25,7 @@ type fnReport struct {
 	Discharged  int      `json:"discharged"`
 	Ledger      []string `json:"abstraction_ledger,omitempty"`
 	PreSat      string   `json:"requires_satisfiable"`
+	Returns     []string `json:"return_reachability,omitempty"`
 	Trusted     bool     `json:"trusted,omitempty"`
 }
 
@@ -274,9 +275,12 @@ func cmdCheck(argv []string) int {
 	bySolver := map[string]int{}
 	var oreps []oblReport
 	frByKey := map[string]*fnReport{}
+	shortToFull := map[string]string{}
 	for _, fr := range freps {
 		frByKey[fr.Key] = fr
+		shortToFull[shortKey(fr.Key)] = fr.Key
 	}
+	var vacuous []string
 	for _, o := range all {
 		solverMs += o.Ms
 		if o.Kind == "vacuity" {
@@ -292,9 +296,19 @@ func cmdCheck(argv []string) int {
 			}
 			continue
 		}
+		if o.Kind == "vacuity-return" {
+			// sat: reachable (good); unsat: contradictory assumptions or dead code; other: undecided
+			if o.Result == "cover-unreachable" {
+				vacuous = append(vacuous, o.Name)
+			}
+			if fr := frByKey[shortToFull[o.Func]]; fr != nil {
+				fr.Returns = append(fr.Returns, o.Name+": "+o.Result)
+			}
+			continue
+		}
 		nObl++
 		ok := o.Result == "unsat" || o.Result == "trivial" || o.Result == "unsat-cover-ok"
-		if fr := frByKey[o.Func]; fr != nil {
+		if fr := frByKey[shortToFull[o.Func]]; fr != nil {
 			fr.Obligations++
 			if ok {
 				fr.Discharged++
@@ -338,6 +352,24 @@ func cmdCheck(argv []string) int {
 		fmt.Printf("VIOLATION property=%s replay=%s obligation=%s%s\n", *prop, path, o.Name, suffix)
 		exit = 1
 	}
+	// a function none of whose returns is reachable has contradictory assumptions
+	byFn := map[string][2]int{}
+	for _, o := range all {
+		if o.Kind == "vacuity-return" {
+			c := byFn[o.Func]
+			c[0]++
+			if o.Result == "cover-unreachable" {
+				c[1]++
+			}
+			byFn[o.Func] = c
+		}
+	}
+	for fn, c := range byFn {
+		if c[0] > 0 && c[0] == c[1] {
+			engineErrs = append(engineErrs, fmt.Sprintf("%s: no return is reachable under the collected assumptions (vacuous proof)", fn))
+		}
+	}
+	_ = vacuous
 	for _, er := range engineErrs {
 		fmt.Printf("UNDECIDED property=%s reason=%s\n", *prop, er)
 		if exit == 0 {
